@@ -106,10 +106,12 @@ PROPS = {
         'level_note': 'structure bounds of the compute_n_m / pth_assign_spectrum contracts: one request with one (N, M) '
                       'entry over a two-OMS list (path over one or both); map sizes, extents and contents unbounded. '
                       'The history clause (occupancy = union of accepted ranges, pairwise disjoint) follows by induction '
-                      'from the per-call contract (DESIGN 4, C14) and is not a separate machine-checked lemma. User-fixed '
-                      'N outside the map raises ValueError (F11, precondition). Requests with several (N, M) entries, fixed, free '
+                      'from the per-call contract (DESIGN 4, C14) and is not a separate machine-checked lemma. A user-fixed '
+                      'N outside the map finds nothing available (proved; it used to raise ValueError: F45, fixed). Requests with several (N, M) entries, fixed, free '
                       'or mixed, are outside the contracts and checked by a bounded stand-in from the service document to the '
-                      'assignment (used as given, or refused / blocked; no exception, no planner that does not return)',
+                      'assignment (used as given, or refused / blocked; no exception, no planner that does not return); histories of services over '
+                      'lines without amplifier (fused-only patches, passive lines) are a bounded stand-in; the upper guard band is one slot '
+                      'short (known finding F43)',
         'trusted': SPECTRUM_TRUST,
         'extra': [{'name': 'order_slots', 'kind': 'bounded', 'script': 'bounded/order_slots.py'},
                   # service documents with N / M fixed, free or mixed in several entries, loaded and planned end to end
